@@ -173,9 +173,10 @@ class ElectionRecord(dict):
                         s += '\tPending:  %s (%s)\n' % (cdict[cid]['name'], cstate[cid]['vote'])
                     for cid in hcids:
                         s += '\tHopeful:  %s (%s)\n' % (cdict[cid]['name'], cstate[cid]['vote'])
-                    for cid in [cid for cid in dcids if cstate[cid]['vote'] > E.V0]:
+                    zero = str(E.V0)    # group only the tallies that print as zero (Guarded == is approximate)
+                    for cid in [cid for cid in dcids if str(cstate[cid]['vote']) != zero]:
                         s += '\tDefeated: %s (%s)\n' % (cdict[cid]['name'], cstate[cid]['vote'])
-                    c0 = [cdict[cid]['name'] for cid in dcids if cstate[cid]['vote'] == E.V0]
+                    c0 = [cdict[cid]['name'] for cid in dcids if str(cstate[cid]['vote']) == zero]
                     if c0:
                         s += '\tDefeated: %s (%s)\n' % (', '.join(c0), E.V0)
                 report.append(s)
